@@ -949,10 +949,11 @@ func oracle(c *Case) (V, *V, bool) {
 	case "bin":
 		x, y := *c.X, c.Args[0]
 		if c.Name == "+" {
-			if !isSeq(x) || x.T != y.T {
+			// spec.md "Concatenation": string + string, list + list, tuple + tuple (not bytes)
+			if !isSeq(x) || x.T != y.T || x.T == "bytes" {
 				return errV, nil, true
 			}
-			if x.T == "str" || x.T == "bytes" {
+			if x.T == "str" {
 				return V{T: x.T, S: x.S + y.S}, nil, true
 			}
 			return V{T: x.T, L: append(append([]V{}, x.L...), y.L...)}, nil, true
